@@ -44,11 +44,17 @@ class Recorder:
     def tick(self, kind):
         self.counts[kind] = self.counts.get(kind, 0) + 1
         if self.fault and self.fault[0] == kind and self.fault[1] == self.counts[kind]:
-            raise InjectedFault("injected at %s #%d" % self.fault)
+            if len(self.fault) > 2 and self.fault[2] == "interrupt":
+                raise InjectedInterrupt("injected at %s #%d" % self.fault[:2])
+            raise InjectedFault("injected at %s #%d" % self.fault[:2])
 
 
 class InjectedFault(Exception):
     pass
+
+
+class InjectedInterrupt(KeyboardInterrupt):
+    """a failure that is not an Exception subclass (Ctrl-C, SystemExit from a worker, ...)"""
 
 
 class RecGen(np.random.Generator):
@@ -187,9 +193,12 @@ class RecPool:
         self._rnd = random.Random(order_seed)
         self.wrap_children = wrap_children
         self.ncalls = 0
+        self.closed = False
         self.watch = None      # callable returning fs observation dict, called while tasks run
 
     def map(self, worker, tasks):
+        if self.closed:        # like a real pool: the caller's pool must not be closed by the library
+            raise ValueError("Pool not running")
         self.rec.tick("map")
         tasks = list(tasks)
         self.ncalls += 1
@@ -237,7 +246,7 @@ class RecPool:
         return res
 
     def close(self):
-        pass
+        self.closed = True
 
 
 _helper_cls = None
